@@ -426,6 +426,61 @@ Example C16_nonvacuous_stream :
   [nv_msg 0 0; nv_msg 1 0].
 Proof. vm_compute. reflexivity. Qed.
 
+(* ---- combinator TREES: ValueAnd / ValueOr nested to any depth, over ANY leaf comparers ---- *)
+(* the (equal, ok) pair of a tree is (the formula over its applicable members, some leaf applies):
+   a conjunction skips the members that do not apply, a disjunction only counts members that apply
+   -- however deep, and whatever (equal, _) a non-applicable member reports *)
+Theorem C16_tree_verdict : forall (L : Type) (f : L -> vcmp) (t : ctree L) x y,
+  tree_cmp f t x y = (tree_says f t x y, tree_applies f t x y).
+Proof. exact tree_verdict. Qed.
+
+Theorem C16_tree_answers_iff_some_leaf_applies : forall (L : Type) (f : L -> vcmp) (t : ctree L) x y,
+  answers (tree_cmp f t) x y = true <-> exists l, In l (tree_leaves t) /\ answers (f l) x y = true.
+Proof. exact tree_answers_iff_some_leaf. Qed.
+
+(* nested ValueAnds flatten to the conjunction over the APPLICABLE leaves, nested ValueOrs to the
+   disjunction over them *)
+Theorem C16_and_tree_is_conj_of_applicable_leaves : forall (L : Type) (f : L -> vcmp) (t : ctree L) x y,
+  all_and t = true ->
+  negb (tree_applies f t x y) || tree_says f t x y
+  = forallb (fun l => negb (answers (f l) x y) || says (f l) x y) (tree_leaves t).
+Proof. exact and_tree_flattens. Qed.
+
+Theorem C16_or_tree_is_disj_of_applicable_leaves : forall (L : Type) (f : L -> vcmp) (t : ctree L) x y,
+  all_or t = true ->
+  tree_applies f t x y && tree_says f t x y
+  = existsb (fun l => answers (f l) x y && says (f l) x y) (tree_leaves t).
+Proof. exact or_tree_flattens. Qed.
+
+(* cmp.Equal(t) for every tree t over the tolerance comparers: symmetric on all pairs of possibly-nil wf
+   messages, reflexive for non-negative tolerances, and on guarded messages the reference equality
+   whose leaf is the tree's ideal (the exact tolerances combined over the applicable members) *)
+Theorem C16_tree_equal_symmetric : forall t x y, existsb is_durp (tree_leaves t) = false ->
+  opt_wf x = true -> opt_wf y = true -> model_tree t x y = model_tree t y x.
+Proof. exact model_tree_symmetric. Qed.
+
+Theorem C16_tree_equal_reflexive : forall t x, forallb vcfg_guard (tree_leaves t) = true ->
+  existsb is_durp (tree_leaves t) = false -> opt_wf x = true -> model_tree t x x = true.
+Proof. exact model_tree_reflexive. Qed.
+
+Theorem C16_tree_whole_message_is_ideal : forall t x y,
+  ecfg_guard (EAnd (tree_leaves t)) = true -> has_durp (EAnd (tree_leaves t)) = false ->
+  tree_ok (EAnd (tree_leaves t)) x = true -> tree_ok (EAnd (tree_leaves t)) y = true ->
+  model_tree t x y = ideal_tree t x y.
+Proof. exact tree_model_is_ideal. Qed.
+
+(* ValueOr(TimeValueWithin(2), ValueAnd(FloatValueApprox(0, 1/4))) on timestamps 5 and 7 ns apart...:
+   the time leaf decides although the And (not applicable to a Timestamp) reports equal = true *)
+Example C16_nonvacuous_tree :
+  let t := TOr [TLeaf (VTime 1); TAnd [TLeaf (VFloat 0 (1#4))]] in
+  let x := Some (nv_msg (1#2) 5) in let y := Some (nv_msg (1#2) 7) in let z := Some (nv_msg (1#2) 6) in
+  let c := KG true (KPair x y (false, false) (false, false)
+              [OTree t (false, false, true, true); OTree (TOr [TLeaf (VTime 2); TAnd [TLeaf (VFloat 0 (1#4))]]) (true, true, true, true)]) in
+  model_tree t x y = false /\ model_tree t x z = true /\
+  model_t (TAnd [TLeaf (VFloat 0 (1#4))]) (CM ts_full true [] []) (CM ts_full true [] []) = (true, false) /\
+  (agrees c && C16_guard c && in_scope_all c && C16_ok c) = true.
+Proof. repeat split; vm_compute; reflexivity. Qed.
+
 (* the hypotheses of C16_judge_sound hold of a non-trivial pair case and of a drifting stream *)
 Example C16_nonvacuous_judge_sound :
   let c1 := KG true (KPair (Some (nv_msg (1#2) 5)) (Some (nv_msg (3#4) 7)) (false, false) (false, false)
@@ -498,3 +553,10 @@ Print Assumptions C16_collection_updates_only.
 Print Assumptions C16_collection_no_equivalence_unchanged.
 Print Assumptions C16_collection_v0_right_for_equivalence_relations.
 Print Assumptions C16_whole_message_is_ideal.
+Print Assumptions C16_tree_verdict.
+Print Assumptions C16_tree_answers_iff_some_leaf_applies.
+Print Assumptions C16_and_tree_is_conj_of_applicable_leaves.
+Print Assumptions C16_or_tree_is_disj_of_applicable_leaves.
+Print Assumptions C16_tree_equal_symmetric.
+Print Assumptions C16_tree_equal_reflexive.
+Print Assumptions C16_tree_whole_message_is_ideal.
